@@ -252,3 +252,101 @@ Proof.
     cbn [map fst somes]. rewrite map_app. destruct r as [v|]; cbn [somes map snd app]; rewrite IH; reflexivity.
   - cbn [map fst somes app]. apply IH.
 Qed.
+
+(* ---- what the actors are told is what is in force ------------------------------------------
+   [told st] is the sum of the two stored (= reported) targets, absent groups counting as
+   absent.  A step that sends a request sends exactly [told] of the new state; a step that
+   sends nothing leaves [told] unchanged.  Hence after every history the last request sent is
+   the sum of the targets the actors are told (or nothing has been targeted yet). *)
+Definition told (st : pm) : option Z := total (g_target (pm_op st)) (g_target (pm_reg st)).
+
+Lemma gcalc_none_keeps g p s must :
+  snd (gcalc g p s must) = None -> g_target (fst (gcalc g p s must)) = g_target g.
+Proof.
+  unfold gcalc. destruct g as [c b t]. cbn [g_created g_target g_bucket].
+  destruct (negb c && no_bounds s); [reflexivity|].
+  destruct p as [q|]; cbn [g_created g_target g_bucket negb].
+  - destruct (must || _); cbn; [discriminate|reflexivity].
+  - destruct (negb c); [reflexivity|].
+    destruct (must || _); cbn; [discriminate|reflexivity].
+Qed.
+
+Lemma calc_total_told st p must :
+  let '(st', r) := calc_total st p must in
+  match r with Some x => told st' = Some x | None => told st' = told st end.
+Proof.
+  unfold calc_total, told.
+  destruct p as [[[|] q]|].
+  - pose proof (or_stored_post (pm_op st) (Some q) (pm_sys st) must) as H1.
+    pose proof (gcalc_none_keeps (pm_op st) (Some q) (pm_sys st) must) as K1.
+    destruct (gcalc (pm_op st) (Some q) (pm_sys st) must) as [gop rs]. cbn [fst snd] in K1.
+    pose proof (or_stored_post (pm_reg st) None (shifted (pm_sys st) (or_stored rs gop)) must) as H2.
+    pose proof (gcalc_none_keeps (pm_reg st) None (shifted (pm_sys st) (or_stored rs gop)) must) as K2.
+    destruct (gcalc (pm_reg st) None (shifted (pm_sys st) (or_stored rs gop)) must) as [greg rn]. cbn [fst snd] in K2.
+    cbn [pm_op pm_reg]. rewrite H1, H2.
+    destruct rs as [a|], rn as [b|]; cbn [or_stored] in H1, H2.
+    + rewrite <- H1, <- H2. reflexivity.
+    + rewrite <- H1. cbn [total]. destruct (g_target greg); reflexivity.
+    + rewrite <- H2. cbn [total]. destruct (g_target gop); reflexivity.
+    + rewrite K1, K2 by reflexivity. reflexivity.
+  - pose proof (or_stored_post (pm_reg st) (Some q) (pm_sys st) must) as H1.
+    pose proof (gcalc_none_keeps (pm_reg st) (Some q) (pm_sys st) must) as K1.
+    destruct (gcalc (pm_reg st) (Some q) (pm_sys st) must) as [greg rn]. cbn [fst snd] in K1.
+    pose proof (or_stored_post (pm_op st) None (shifted (pm_sys st) (or_stored rn greg)) must) as H2.
+    pose proof (gcalc_none_keeps (pm_op st) None (shifted (pm_sys st) (or_stored rn greg)) must) as K2.
+    destruct (gcalc (pm_op st) None (shifted (pm_sys st) (or_stored rn greg)) must) as [gop rs]. cbn [fst snd] in K2.
+    cbn [pm_op pm_reg]. rewrite H1, H2.
+    destruct rs as [a|], rn as [b|]; cbn [or_stored] in H1, H2.
+    + rewrite <- H1, <- H2. reflexivity.
+    + rewrite <- H2. cbn [total]. destruct (g_target greg); reflexivity.
+    + rewrite <- H1. cbn [total]. destruct (g_target gop); reflexivity.
+    + rewrite K1, K2 by reflexivity. reflexivity.
+  - pose proof (or_stored_post (pm_reg st) None (pm_sys st) must) as H1.
+    pose proof (gcalc_none_keeps (pm_reg st) None (pm_sys st) must) as K1.
+    destruct (gcalc (pm_reg st) None (pm_sys st) must) as [greg rn]. cbn [fst snd] in K1.
+    pose proof (or_stored_post (pm_op st) None (shifted (pm_sys st) (or_stored rn greg)) must) as H2.
+    pose proof (gcalc_none_keeps (pm_op st) None (shifted (pm_sys st) (or_stored rn greg)) must) as K2.
+    destruct (gcalc (pm_op st) None (shifted (pm_sys st) (or_stored rn greg)) must) as [gop rs]. cbn [fst snd] in K2.
+    cbn [pm_op pm_reg]. rewrite H1, H2.
+    destruct rs as [a|], rn as [b|]; cbn [or_stored] in H1, H2.
+    + rewrite <- H1, <- H2. reflexivity.
+    + rewrite <- H2. cbn [total]. destruct (g_target greg); reflexivity.
+    + rewrite <- H1. cbn [total]. destruct (g_target gop); reflexivity.
+    + rewrite K1, K2 by reflexivity. reflexivity.
+Qed.
+
+Lemma pstep_told ma1 ma2 st e :
+  let '(st', r, _) := pstep ma1 ma2 st e in
+  match r with Some x => told st' = Some x | None => told st' = told st end.
+Proof.
+  destruct e as [is_op p|s|k|now]; cbn [pstep].
+  - pose proof (calc_total_told st (Some (is_op, p)) true) as H.
+    destruct (calc_total st (Some (is_op, p)) true) as [st' r]. exact H.
+  - pose proof (calc_total_told (mkPM (pm_reg st) (pm_op st) s (pm_last_pf st)) None false) as H.
+    destruct (calc_total _ None false) as [st' r]. exact H.
+  - destruct (k =? 1).
+    + destruct (pm_last_pf st); [reflexivity|].
+      pose proof (calc_total_told (mkPM (pm_reg st) (pm_op st) (pm_sys st) true) None true) as H.
+      destruct (calc_total _ None true) as [st' r]. exact H.
+    + destruct (k =? 0); reflexivity.
+  - reflexivity.
+Qed.
+
+(* final state and last request sent along a history *)
+Fixpoint run_last (ma1 ma2 : Z) (st : pm) (last : option Z) (h : list pevent) : pm * option Z :=
+  match h with
+  | [] => (st, last)
+  | e :: h' =>
+    let '(st', r, _) := pstep ma1 ma2 st e in
+    run_last ma1 ma2 st' (match r with Some x => Some x | None => last end) h'
+  end.
+
+Lemma told_in_force ma1 ma2 h : forall st last,
+  (told st = None \/ told st = last) ->
+  let '(st', last') := run_last ma1 ma2 st last h in told st' = None \/ told st' = last'.
+Proof.
+  induction h as [|e h IH]; intros st last Hinv; cbn [run_last]; [exact Hinv|].
+  pose proof (pstep_told ma1 ma2 st e) as H.
+  destruct (pstep ma1 ma2 st e) as [[st' r] rep].
+  apply IH. destruct r as [x|]; [right; exact H|]. rewrite H. exact Hinv.
+Qed.
